@@ -188,22 +188,53 @@ CS_ABBR = {"gray8": "G", "rgb8": "RGB", "bit1": "G", "jpeg-gray": "G", "jpeg-rgb
 
 
 def image_dict(img: Dict[str, Any], inline: bool, abbreviate: bool = True) -> Dict[str, Any]:
+    """Image dictionary.  Inline images: `abbreviate` spells every key and value short (True) or in full (False);
+    img["spell"] = {"W","H","BPC","CS","F": key short?, "CSv","Fv": value short?} chooses per entry (every mixture is
+    valid between BI and ID: ISO 32000-1 table 93/94)."""
     kind = img["kind"]
     if kind == "other":
         kind = "gray8"       # placeholder colour space / bits: overridden from img["cslist"], img["bits"]
     bpc = 1 if kind == "bit1" else 8
     fl = img.get("filters", [])
-    if inline and abbreviate:
-        d: Dict[str, Any] = {"W": img["w"], "H": img["h"], "BPC": bpc, "CS": CS_ABBR[kind]}
+    if inline:
+        sp = img.get("spell") or {k: bool(abbreviate) for k in ("W", "H", "BPC", "CS", "F", "CSv", "Fv")}
+        full = {"W": "Width", "H": "Height", "BPC": "BitsPerComponent", "CS": "ColorSpace", "F": "Filter"}
+        key = lambda k: k if sp.get(k, True) else full[k]  # noqa: E731
+        d: Dict[str, Any] = {key("W"): img["w"], key("H"): img["h"], key("BPC"): bpc,
+                             key("CS"): (CS_ABBR if sp.get("CSv", True) else CS_LONG)[kind]}
         if fl:
-            d["F"] = ABBR[fl[0]] if len(fl) == 1 else [ABBR[f] for f in fl]
+            names = ABBR if sp.get("Fv", True) else LONG
+            d[key("F")] = names[fl[0]] if len(fl) == 1 else [names[f] for f in fl]
+        # rarely used entries that do not change the samples: interpolate flag, identity decode array, rendering intent
+        for k, v in (img.get("extras") or {}).items():
+            d[k] = v
     else:
         d = {"Width": img["w"], "Height": img["h"], "BitsPerComponent": bpc, "ColorSpace": CS_LONG[kind]}
-        if not inline:
-            d = dict({"Type": "XObject", "Subtype": "Image"}, **d)
+        d = dict({"Type": "XObject", "Subtype": "Image"}, **d)
         if fl:
             d["Filter"] = LONG[fl[0]] if len(fl) == 1 else [LONG[f] for f in fl]
     return d
+
+
+EXTRA_ENTRIES = [("I", True), ("Interpolate", False), ("Intent", "Perceptual")]
+
+
+def random_extras(rng) -> Dict[str, Any]:
+    return dict(rng.sample(EXTRA_ENTRIES, rng.randint(0, 2)))
+
+
+def random_spell(rng) -> Dict[str, bool]:
+    return {k: rng.random() < 0.5 for k in ("W", "H", "BPC", "CS", "F", "CSv", "Fv")}
+
+
+def cs_value_short(img: Dict[str, Any]) -> bool:
+    sp = img.get("spell")
+    return bool(sp["CSv"]) if sp else bool(img.get("abbr", True))
+
+
+def filter_key_short(img: Dict[str, Any]) -> bool:
+    sp = img.get("spell")
+    return bool(sp["F"]) if sp else bool(img.get("abbr", True))
 
 
 def inline_image_bytes(img: Dict[str, Any], payload: bytes, id_ws: bytes = b" ", sep: bytes = b"\n",
